@@ -437,6 +437,21 @@ func (g *gen) mutate(valid map[string]any, v1 bool, kind string) (m mutated, ok 
 		if it == nil {
 			return m, false
 		}
+		if g.r.Chance(50) {
+			// a near miss of a documented key, with a value the documented key would accept
+			near := []struct {
+				k string
+				v any
+			}{{"watchEvents", []any{"Added"}}, {"watchEventTypes", []any{"Added", "Deleted"}}, {"noexecuteHookOnEvent", []any{}},
+				{"myexecuteHookOnEvent", []any{"Modified"}}, {"executeHookOnEvents", []any{"Added"}}, {"names", "x"}, {"queues", "q"},
+				{"allowFailures", true}, {"groupName", "g"}, {"jqFilters", ".a"}, {"crontabs", "* * * * *"}, {"includeSnapshotsFromAll", []any{}},
+				{"executeHookOnSynchronizations", false}, {"keepFullObjectsInMemorys", true}, {"apiVersions", "v1"}, {"kinds", "Pod"}}
+			n := near[g.r.Intn(len(near))]
+			if _, exists := it[n.k]; !exists {
+				it[n.k] = n.v
+				return mutatedOf(m, "unknown-binding-field (near miss "+n.k+") in "+k), true
+			}
+		}
 		it[g.pick([]string{"extra", "Name", "crontabs", "mode", "includeSnapshots"})] = "x"
 		return mutatedOf(m, "unknown-binding-field in "+k), true
 	case "unknown-nested-field":
